@@ -309,6 +309,23 @@ static size_t feed(zckDL *dl, char *data, size_t len, const char *fragspec, int 
 
 #include "zh_serve.h"
 
+/* State an application that uses the same libraries legitimately leaves behind: an (already handled) error on OpenSSL's
+ * per-thread error queue - from a failed BIO_new_file() of its own - and a non-zero errno.  Enabled by ZCKV_APP_NOISE=1. */
+#include <dlfcn.h>
+#include <errno.h>
+static int app_noise_on = -1;
+static long app_noise_made = 0;
+static void app_noise(void) {
+    if(app_noise_on < 0) app_noise_on = getenv("ZCKV_APP_NOISE") != NULL;
+    if(!app_noise_on) return;
+    void *(*bio_new_file)(const char *, const char *) = (void *(*)(const char *, const char *))dlsym(RTLD_DEFAULT, "BIO_new_file");
+    if(bio_new_file) {
+        void *b = bio_new_file("/nonexistent-zckv/no-such-file", "r");
+        if(!b) app_noise_made++;
+    }
+    errno = EINTR;
+}
+
 /* a second writer in the same thread, fed a piece after every write call of `writeseq` (an application producing several
  * archives side by side): `companion C f:path piece` */
 static zckCtx *cmp_ctx = NULL;
@@ -363,6 +380,7 @@ int main(int argc, char **argv) {
             json_escape(esc, sizeof(esc), tmp);
             zh_log("{\"i\":%d,\"call\":\"%s\"}", opi, esc);
         }
+        app_noise();
         char *t[MAXTOK] = {0};
         int nt = 0;
         for(char *p = strtok(line, " "); p && nt < MAXTOK - 1; p = strtok(NULL, " ")) t[nt++] = p;
@@ -738,6 +756,6 @@ int main(int argc, char **argv) {
             die("unknown op", op);
         }
     }
-    zh_log("{\"ev\":\"end\",\"ops\":%d}", opi);
+    zh_log("{\"ev\":\"end\",\"ops\":%d,\"app_noise\":%ld}", opi, app_noise_made);
     return 0;
 }
